@@ -21,7 +21,7 @@ import vlib
 LEVEL = "model_checking"
 MANIFEST = dict(cat=LEVEL, ref="DESIGN.md 3.9, 6 (C08)",
     tech="TLA+ spec Txn.tla: snapshot-isolation reference and implementation-shaped in-place/undo-list model side by side, explored by TLC (per-transition emission + -simulate walks); every interleaving rendered to SQL on cloned handles and replayed on TurDB, judged against both models",
-    text="TLC explores every interleaving of 2 cloned handles x {BEGIN, COMMIT, ROLLBACK, drop handle, INSERT, UPDATE, DELETE, SELECT} up to 4 (quick) / 5 (thorough) statements from two initial configurations (autocommit, both handles inside a transaction) plus random walks of 10 steps; invariants on the reference (no dirty read, own writes visible, no lost update, sequential when autocommit-only, serial with one handle) are model-checked; each explored transition is executed on TurDB and its result and the resulting table must equal the reference, or - where the two models differ - the implementation-shaped model, in which case the spec-named anomaly is reported as a known finding",
+    text="(plus an insert-focused exhaustive exploration, Gen_Txn_inserts.cfg: BEGIN/COMMIT/ROLLBACK/INSERT/read only, 6 (quick) / 7 (thorough) statements, every behaviour replayed) TLC explores every interleaving of 2 cloned handles x {BEGIN, COMMIT, ROLLBACK, drop handle, INSERT, UPDATE, DELETE, SELECT} up to 4 (quick) / 5 (thorough) statements from two initial configurations (autocommit, both handles inside a transaction) plus random walks of 10 steps; invariants on the reference (no dirty read, own writes visible, no lost update, sequential when autocommit-only, serial with one handle) are model-checked; each explored transition is executed on TurDB and its result and the resulting table must equal the reference, or - where the two models differ - the implementation-shaped model, in which case the spec-named anomaly is reported as a known finding",
     note="statements are atomic steps issued from one thread (no preemptive multi-threaded SQL; thread-level races are decided on the components C35-C39); table without declared keys so that every statement is a scan (index interplay with foreign undo is not modelled); 2 handles, 2 ids, <=4 row keys")
 
 PRELUDE = [{"k": "exec", "sql": "CREATE TABLE t (id INT, v INT)", "h": 0},
